@@ -134,6 +134,13 @@ class Z3Gen:
             return app(self.use(PRED), self.term(TA, 0, bd))
         if r < 0.28:
             return A.rel('equals', TA, self.term(TA, 0, bd), self.term(TA, 0, bd))
+        if r < 0.32:
+            # equality between FUNCTIONS (two function variables, possibly the same one): true in some
+            # interpretations and false in others - a translation that compares the declarations gets a constant
+            FT, a1, a2 = rng.choice([(S.fun(NAT, NAT), NFUN, ('var', 'h2', S.fun(NAT, NAT))), (S.fun(TA, B), PRED, ('var', 'P2', S.fun(TA, B))),
+                                     (S.fun(TA, NAT), AFUN, ('var', 'g2', S.fun(TA, NAT)))])
+            l_, r_ = rng.choice([(a1, a2), (a1, a2), (a2, a1), (a1, a1)])
+            return A.rel('equals', FT, self.use(l_), self.use(r_))
         T = rng.choice([NAT, NAT, NAT, INT, REAL])
         relname = rng.choice(['equals', 'less', 'less_eq', 'greater', 'greater_eq'])
         return A.rel(relname, T, self.term(T, max(depth, 1), bd), self.term(T, max(depth, 0), bd))
@@ -187,6 +194,8 @@ def z3_templates(rng):
         return name_clash_template(rng)
     if rng.random() < 0.15:
         return constructed_template(rng)
+    if rng.random() < 0.2:
+        return binder_before_variable_template(rng)
     return rng.choice(pool)
 
 
@@ -204,6 +213,28 @@ def constructed_template(rng):
     h3 = A.rel('equals', REAL, app(g, A.num(NAT, k)), A.num(REAL, k))
     goal = conn('implies', h1, conn('implies', h2, conn('implies', h3, c('false', B))))
     CONSTRUCTED[goal] = {'env': {'gr': 'the embedding of nat into real (gr n = of_nat n for every n)'}, 'by_construction': True}
+    return goal
+
+
+def binder_before_variable_template(rng):
+    """quantifier bodies in which an INNER binder comes before the only occurrences of the quantified variable
+    ((!y. P y) & Q x under ?x): a normaliser that decides 'the bound variable does not occur' with a depth counter it
+    never restores drops the quantifier, and two existential premises then share one witness.
+    Invalid by construction: Q and R hold of different elements."""
+    T = rng.choice([TA, TA, NAT])
+    Pv, Qv, Rv = [('var', nm, S.fun(T, B)) for nm in ('P', 'Q4', 'R4')]
+    b0 = ('bound', 0)
+    inner = lambda: rng.choice([quant('all', 'y', T, app(Pv, ('bound', 0))), quant('exists', 'y', T, app(Pv, ('bound', 0))),
+                                quant('all', 'y', T, conn('implies', app(Pv, ('bound', 0)), app(Pv, ('bound', 0))))])
+    mk = lambda Xv: quant('exists', rng.choice(['x', 'k', 'u']), T, conn('conj', inner(), app(Xv, b0)))
+    concl = quant('exists', 'x', T, conn('conj', app(Qv, b0), app(Rv, b0)))
+    prem = conn('conj', mk(Qv), mk(Rv))
+    if rng.random() < 0.4:
+        goal = conn('implies', mk(Qv), conn('implies', mk(Rv), concl))
+    else:
+        goal = conn('implies', prem, concl)
+    CONSTRUCTED[goal] = {'env': {'P': 'everywhere true', 'Q4': 'true of element 0 only', 'R4': 'true of element 1 only'},
+                         'tv_size': 2, 'by_construction': True}
     return goal
 
 
@@ -392,6 +423,18 @@ def sympy_goal(rng):
     bo = lambda op, a, b: A.binop(op, REAL, a, b)
     eq = lambda a, b: A.rel('equals', REAL, a, b)
     r = rng.random()
+    if rng.random() < 0.08:
+        # constant goals at type nat (truncated subtraction) and int: the solver's arithmetic is real arithmetic
+        T = rng.choice([NAT, NAT, INT])
+        n_ = lambda v: A.num(T, v)
+        a_, b_, c_ = rng.randrange(0, 5), rng.randrange(0, 7), rng.randrange(0, 4)
+        lhs = A.binop('minus', T, n_(a_), n_(b_))
+        if rng.random() < 0.5:
+            lhs = A.binop('plus', T, lhs, n_(c_))
+        relname = rng.choice(['less', 'less_eq', 'greater', 'greater_eq', 'equals'])
+        rhs = n_(rng.choice([0, 0, 1, a_ - b_ + c_ if T == INT else max(0, c_)]))
+        g_ = A.rel(relname, T, lhs, rhs)
+        return (neg(g_) if relname == 'equals' and rng.random() < 0.5 else g_), None
     if r < 0.3:
         # equalities with partial-function traps and honest identities
         pool = [eq(bo('real_divide', x, x), N(1)), eq(bo('times', x, bo('real_divide', N(1), x)), N(1)),
@@ -442,10 +485,26 @@ def sympy_goal(rng):
     goal = A.rel(relname, REAL, rng.choice(bodies), N(rng.choice([0, 0, 1, -1, Fraction(1, 2)])))
     if rng.random() < 0.3:
         goal = neg(eq(rng.choice(bodies), N(rng.choice([0, 0, 1]))))
+    if rng.random() < 0.15:
+        # the goal speaks (also) about ANOTHER variable, which the premise does not bound
+        other = [neg(eq(y, N(rng.choice([0, 1, 2])))), A.rel(relname, REAL, y, N(rng.choice([0, 2, -1]))),
+                 A.rel(relname, REAL, bo('plus', x, y), N(0)), neg(eq(bo('times', x, y), N(1))),
+                 A.rel(relname, REAL, bo('minus', npow(y, 2), x), N(-2))]
+        goal = rng.choice(other)
     return goal, (prem, kind, lo, hi)
 
 
-def classify_sympy(goal):
+def classify_sympy(goal, prem=None):
+    if prem and any(a[1] != 'x' for a in S.atoms(goal)):
+        return 'sympy:goal-about-a-variable-the-premise-does-not-bound'
+    h0, a0 = S.strip_comb(goal)
+    if h0[0] == 'const' and h0[1] == 'neg' and len(a0) == 1:
+        h0, a0 = S.strip_comb(a0[0])
+    try:
+        if len(a0) == 2 and S.typeof(a0[0]) in (NAT, INT):
+            return 'sympy:nat-or-int-goal-decided-with-real-arithmetic'
+    except S.ShadowError:
+        pass
     if mentions(goal, ('real_divide', 'real_inverse', 'log', 'sqrt', 'power')):
         return 'sympy:partial-function-simplified-as-in-complex-analysis'
     h, args = S.strip_comb(goal)
@@ -472,7 +531,9 @@ def run_sympy_case(ctx, rng, goal, prem):
         for v in cand:
             ok = (lo <= v <= hi) if kind == 'real_closed_interval' else (lo < v < hi)
             if ok:
-                pts.append({x: v})
+                # the premise bounds x only: any other variable of the goal ranges over all reals
+                for vy in (Fraction(0), Fraction(1), Fraction(-2), Fraction(1, 2), Fraction(3)):
+                    pts.append({x: v, y: vy})
     else:
         vals = [Fraction(0), Fraction(1), Fraction(-1), Fraction(2), Fraction(-2), Fraction(1, 2), Fraction(-3, 2), Fraction(5)]
         for _ in range(14):
@@ -483,7 +544,7 @@ def run_sympy_case(ctx, rng, goal, prem):
     for env in pts:
         v = A.truth(goal, env)
         if v is False:
-            ctx.violation(classify_sympy(goal), 'sympy step accepted %s%s which is false at %s' % (
+            ctx.violation(classify_sympy(goal, prem), 'sympy step accepted %s%s which is false at %s' % (
                 S.tm_str(goal), (' under ' + S.tm_str(prem[0])) if prem else '', {a[1]: str(q) for a, q in env.items()}),
                 {'solver': 'sympy', 'goal': S.jsonable(goal), 'prem': S.jsonable(prem[0]) if prem else None,
                  'prem_info': list(prem[1:]) if prem else None, 'point': {a[1]: str(q) for a, q in env.items()}})
